@@ -77,6 +77,21 @@ def run(res, seed, nthreads=6, per=5):
                                 errors.append('the aborted query did not fail')
                             except exceptions.NetDICOMError:
                                 pass
+                        elif t % 4 == 2 and k % 2 == 0:
+                            # the call is made from a copied execution context (what an asyncio task or
+                            # an event-loop callback of this thread does); it is still this thread's call
+                            import contextvars
+                            contextvars.copy_context().run(
+                                lambda: list(pynetdicom2.c_find(remote, title, query(t, title))))
+                        elif t % 4 == 2 and k == 1:
+                            import asyncio
+
+                            async def task():
+                                return list(pynetdicom2.c_find(remote, title, query(t, title)))
+
+                            async def main():
+                                return await asyncio.create_task(task())
+                            asyncio.run(main())
                         else:
                             list(pynetdicom2.c_find(remote, title, query(t, title)))
                 except Exception as exc:
